@@ -21,10 +21,12 @@ func checkC24(c *Ctx, r *Report) {
 		if ok {
 			for _, ret := range returnsOf(rs) {
 				v := unspill(ret.Results[0])
-				empty := guardedBy(ret, eqFact(func(b *ssa.BinOp) bool {
-					lc, isL := b.X.(*ssa.Call)
-					return isL && calleeName(lc.Common()) == "builtin.len" && lc.Call.Args[0] == run[0].Instr.Value() && isConstZero(b.Y)
-				}, true))
+				zf := lenZeroFact(func(x ssa.Value) bool { return x == run[0].Instr.Value() })
+				empty := guardedBy(ret, zf)
+				nonEmpty := guardedBy(ret, func(cond ssa.Value, val bool) int { return -zf(cond, val) })
+				if !empty && !nonEmpty {
+					ok = false // the return is not decided by the emptiness of the filtered set
+				}
 				if empty {
 					nEmpty++
 					if v != all[0].Instr.Value() {
@@ -117,6 +119,28 @@ func checkC24(c *Ctx, r *Report) {
 				pruned = true
 			}
 		})
+		// the FailTimeout test may sit in a helper of the type that Failed calls
+		// (an `expired(t, now)` predicate, or a function returning the retained suffix)
+		if !pruned {
+			seen := map[*ssa.Function]bool{fl: true}
+			var visit func(g *ssa.Function, d int)
+			visit = func(g *ssa.Function, d int) {
+				for _, cs := range callsIn(g) {
+					sf := cs.Instr.Common().StaticCallee()
+					if sf == nil || sf.Pkg != fl.Pkg || seen[sf] || d > 2 {
+						continue
+					}
+					seen[sf] = true
+					instrsOf(sf, func(in ssa.Instruction) {
+						if b, isB := in.(*ssa.BinOp); isB && mentionsField(b, pkgHC+".PassiveFilterConfig.FailTimeout") {
+							pruned = true
+						}
+					})
+					visit(sf, d+1)
+				}
+			}
+			visit(fl, 0)
+		}
 		r.Check(okMark && stored && pruned, r3, fl, "mark at the Fails threshold", nil, "len(retained) >= Fails, list pruned and stored", "a host is marked unhealthy without the retained-failure count having reached Fails, or the failure list is not pruned/stored")
 	}
 	r5 := r.Rule("R5", "E-OWN", "the per-host failure history (passiveFilter.failures) is written — updated or deleted from — only by Failed, where every write stores the pruned list; no other function drops failures that may still lie inside the window", 1)
